@@ -4,14 +4,14 @@ from ..stage import LineStage, replay_line
 from .common import *
 from . import c05, c06
 
-ARTEFACTS = ["G1-consts", "G3-arith", "G3b-regions", "G9-update", "G23-c-wide", "G26-asm-abi"]
-EXTRA_PROPS = [("B3.Props.C01T", "B3/Props/C01T.lean"), ("B3.Props.C06W", "B3/Props/C06W.lean"), ("B3.Props.C07A", "B3/Props/C07A.lean")]   # theorems about the code translated from the sources
+ARTEFACTS = ["G1-consts", "G3-arith", "G3b-regions", "G9-update", "G23-c-wide", "G26-asm-abi", "G31-asm-avx512-compress-wgnu", "G32-asm-sse41-compress-wgnu", "G33-asm-sse2-compress-wgnu"]
+EXTRA_PROPS = [("B3.Props.C01T", "B3/Props/C01T.lean"), ("B3.Props.C06W", "B3/Props/C06W.lean"), ("B3.Props.C07A", "B3/Props/C07A.lean"), ("B3.Props.C05W", "B3/Props/C05W.lean"), ("B3.Props.C05BW", "B3/Props/C05BW.lean")]   # theorems about the code translated from the sources
 RULE = ("the C05 kernel calls and the C06 API histories run in harness/c, where every input ends flush against a PROT_NONE page, every "
         "output is produced once flush against an upper and once flush after a lower guard page with 0xAA canaries on the open side, "
         "the working copy of the hasher is itself flush against a guard page, and every assembly routine (System V and Windows-GNU) is "
         "called through a trampoline that plants sentinels in all callee-saved registers of its ABI and checks them, rsp, DF and the "
         "MXCSR control bits on return; the model predicts plain hex output, so any CANARY / REGS / FAULT / MISMATCH / MUTATED / SAN "
-        "flag is a difference; `CK hmanysep` gives every hash_many input its own guarded buffer (not adjacent to the next input); CK dirty 1|2 adds garbage in the unused upper bits of narrow arguments (thorough); thorough also runs "
+        "flag is a difference; `CK align` repeats the assembly kernel calls with the stack pointer at each of the four 16-byte positions of a 64-byte line; `CK hmanysep` gives every hash_many input its own guarded buffer (not adjacent to the next input); CK dirty 1|2 adds garbage in the unused upper bits of narrow arguments (thorough); thorough also runs "
         "the ASan+UBSan build; non-trivial = every kernel call / API history; distinct = distinct script")
 ASSUMPTIONS = ["Miri cannot execute SIMD intrinsics or FFI: the unsafe Rust kernels are covered by the output canaries of harness/rs K ops only",
                "memory and register behaviour is observed on the inputs run, not proved"]
@@ -32,9 +32,17 @@ def stages(tier, seed, witness_search=False):
                 ctr = rng.choice([0, (1 << 32) - 3, rng.randrange(1 << 60)])
                 sep.append(Script([f"CK hmanysep {sym} {n} {blocks} {rng.randrange(1 << 30)} {c05.rhex(rng, 32)} {ctr} {rng.randrange(2)} "
                                    f"{rng.randrange(256)} {rng.randrange(256)} {rng.randrange(256)}"], tags=(f"hmanysep {sym}",)))
+    # every 16-byte position of the stack pointer within a 64-byte line at the call (the ABI promises the callee no more than 16-byte
+    # alignment; the default trampoline position is 48 mod 64): frame layout mistakes that depend on where `and rsp, -64` lands
+    asm_syms = [x for x in c05.C_SYMS if x.endswith("_asm")]
+    aligned = []
+    for a in (16, 32, 48):
+        aops = c05.single_ops(rng, "CK", asm_syms, 20 if tier == "quick" else 400) + c05.many_ops(rng, "CK", asm_syms, 40 if tier == "quick" else 800)
+        aligned += [Script([f"CK align {a}", o, "CK align 0"], tags=(f"align {a} " + " ".join(o.split(" ")[1:3]),)) for o in aops]
     rs_ops = c05.many_ops(rng, "K", PLATFORMS, k // 4)
     st = [LineStage("c-kernels-guarded", kscripts, impl="c"), LineStage("c-api-guarded", api, impl="c"),
           LineStage("c-hash-many-separate-inputs", sep, impl="c", max_minimise=40),
+          LineStage("c-asm-stack-alignments", aligned, impl="c"),
           LineStage("rs-kernels-canary", [Script([o], tags=("K",)) for o in rs_ops], features=("pure",))]
     # "write only the requested output plus the hasher object itself": no writable static storage besides the detection cache
     from . import c18
